@@ -8,7 +8,7 @@
 
   The wrapped function may collect further positional arguments (`Sig.varargs`: `def f(a, b=0, *rest, k=0)`): the repaired
   key construction (`argsKey`) keeps the overflow apart from the named parameters.
-  NOT modelled: `**kwargs`, positional-only parameters.
+  `**kwargs` and positional-only parameters: Lib/CacheKw.lean (open signatures; positional-only count `po`).
 
   A history is a list of top-level operations, each run to completion before the next one starts (the body may
   block on a batch in between - invisible at this level).  Values are identity tokens (Nat); parameter names are
@@ -27,7 +27,8 @@ namespace AsynqModel.Cache
 
 abbrev Name := Nat
 
-/-- `inspect.getfullargspec(get_original_fn(fn))` of the wrapped function (no **kwargs, no positional-only parameters) -/
+/-- `inspect.getfullargspec(get_original_fn(fn))` of the wrapped function (`**kwargs` / the positional-only count are parameters of
+    Lib/CacheKw.lean, not fields) -/
 structure Sig where
   args : List Name                    -- argspec.args (for a method this includes `self`)
   defaults : List Nat                 -- argspec.defaults: defaults of the LAST `defaults.length` entries of `args`
